@@ -143,6 +143,12 @@ CLAIMED["C29"] = {
     "technique": "property-based testing with recording sources and spy functions: invariant over the pre-execution history",
 }
 
+CLAIMED["C20"] = {
+    "text": PROG + " that always contain a map_blocks call with a spy function taking block_info, block_id or both (keep / drop_axis / new_axis / explicit-chunks variants, one or two broadcasting inputs), placed above leaves, sliding-window reductions, slices, rechunks, unifying elemwise, concatenates and reductions and below slices, rechunks, reductions and transposes; inputs[i].chunks and out.chunks are snapshotted when the call is made, and every invocation's chunk-location, array-location, chunk-shape, num-chunks, shape, block_id and every input block's shape and CONTENT must match that snapshot; outputs equal a grid-independent NumPy twin. " + EXPL,
+    "note": "The spy's return value encodes the received location, so a wrong location changes values; a grid location computed twice (fusion re-computing a broadcast block) is a class, not a failure; the mb statement and a window-reduction statement are registered into the op table by the engine.",
+    "technique": "property-based testing with spying block functions: invariant over logged invocations + NumPy reference",
+}
+
 NOT_APPLICABLE = {
     "C22": "native Rust extension cannot be built offline (pyo3 0.29 and other crates are absent from the offline cargo registry; no prebuilt .so), so no native layer can be instantiated to generate inputs against; see DESIGN.md section 4 C22",
 }
